@@ -218,6 +218,8 @@ def loop_headers(f):
         else: state[b] = 2; stack.pop()
     return [b for b in f.order if b in heads]
 
+CALLED = {}      # process-wide: function name -> number of symbolic calls (reported as evidence)
+
 class Limits:
     def __init__(s, max_steps=4000000, max_paths=4000, feas_ms=10000, max_seconds=300, max_visits=None, visit_fn='', visit_block=''):
         s.max_steps = max_steps; s.max_paths = max_paths; s.feas_ms = feas_ms; s.max_seconds = max_seconds; s.max_visits = max_visits; s.visit_fn = visit_fn; s.visit_block = visit_block
@@ -383,7 +385,7 @@ class Interp:
     def run(s, fname, args, st, depth):
         fname = s.mod.aliases.get(fname, fname)
         f = s.mod.funcs[fname]
-        s.called[fname] = s.called.get(fname, 0) + 1
+        s.called[fname] = s.called.get(fname, 0) + 1; CALLED[fname] = CALLED.get(fname, 0) + 1
         if depth > 400: raise Unsupported('call depth')
         regs0 = {nm: a for (ty, nm), a in zip(f.params, args)}
         work = [(f.order[0], None, regs0, st, 0)]; outs = []
